@@ -395,7 +395,7 @@ where
     fn sites() -> &'static [SiteInfo];
     fn with_caps(caps: &[usize]) -> Self;
     /// Full-column find pinned to archetype `ai` through `ecs_find!` / `ecs_find_borrow!`.
-    fn find_full(&mut self, ai: usize, borrow: bool, key: Key, write: Option<(usize, u64)>) -> Option<(Row, Option<EntityDirectAny>)>;
+    fn find_full(&mut self, ai: usize, borrow: bool, key: Key, write: Option<(usize, u64)>, byref: bool) -> Option<(Row, Option<EntityDirectAny>)>;
     /// Full-column scan pinned to archetype `ai` through `ecs_iter!` / `ecs_iter_borrow!`.
     fn iter_full(&mut self, ai: usize, borrow: bool, write: Option<(usize, usize, u64)>) -> Vec<(Row, Option<EntityDirectAny>)>;
     /// Multi-archetype query sites, mut-mode macros.
@@ -605,8 +605,8 @@ where
                 let idx = self.resolve(w, key)?;
                 Some(w.archetype_mut::<A>().obs_all_slices_at(idx))
             }
-            RPath::Find => w.find_full(self.index::<W>(), false, key, None).map(|r| r.0),
-            RPath::FindBorrow => w.find_full(self.index::<W>(), true, key, None).map(|r| r.0),
+            RPath::Find => w.find_full(self.index::<W>(), false, key, None, true).map(|r| r.0),
+            RPath::FindBorrow => w.find_full(self.index::<W>(), true, key, None, true).map(|r| r.0),
         }
     }
     fn write(&self, w: &mut W, path: RPath, key: Key, col: usize, p: u64) -> bool {
@@ -666,8 +666,8 @@ where
                 }
                 None => false,
             },
-            RPath::Find => w.find_full(self.index::<W>(), false, key, Some((col, p))).is_some(),
-            RPath::FindBorrow => w.find_full(self.index::<W>(), true, key, Some((col, p))).is_some(),
+            RPath::Find => w.find_full(self.index::<W>(), false, key, Some((col, p)), false).is_some(),
+            RPath::FindBorrow => w.find_full(self.index::<W>(), true, key, Some((col, p)), false).is_some(),
         }
     }
     fn scan(&self, w: &mut W, path: SPath, write: Option<(usize, usize, u64)>) -> Result<Vec<Row>, String> {
